@@ -94,6 +94,11 @@ def run(ctx):
             cases.append((3, [], [["push", ["url", b]], ["op", "with_name", nm, False, False]]))
         cases.append((3, [], [["push", ["url", b]], ["op", "parent"]]))
         cases.append((3, [], [["push", ["url", b]], ["op", "with_suffix", "", False, False], ["op", "with_suffix", ".z", False, False]]))
+    # join(): whatever the base path (empty, "/", deeper) and however the dots are written in the reference
+    for base in ("http://h", "http://h/", "http://h/a/b", "http://h/a/b/", "http://u@h:81", "//h"):
+        for ref in ("../a", ".", "./x", "%2E%2E/a", "a/../b", "..", "../..", "a/.", "./", "x/%2e/y", "?q", "#f", ""):
+            cases.append((3, [], [["push", ["url", base]], ["push", ["url", ref]], ["join"]]))
+            cases.append((3, [], [["push", ["url", base]], ["op", "origin"], ["push", ["url", ref]], ["join"]]))
     for prg in gens.random_programs(ctx.rng, 1500 if ctx.quick else 20000, maxops=4):
         if suites.is_autoenc(prg):
             cases.append((3, [], prg))
